@@ -17,6 +17,8 @@ def run(ctx):
     simrules.measured_qubits_rule(ctx, 'C09.f')
     simrules.ancilla_initial_state_rule(ctx, 'C09.g')
     simrules.noise_before_deferral_rule(ctx, 'C09.h')
+    simrules.order_independent_reduction_rule(ctx, 'C09.i')
+    ctx.decided.append('C09.i noise models reduce over the operations of a moment order-independently (e.g. the moment duration is the running maximum of the gate durations)')
     ctx.decided.append('C09.h final_density_matrix applies the noise model to the circuit as written, before measurements are deferred, and not again afterwards')
     ctx.decided.append('C09.g final_density_matrix: an integer initial state is rescaled when defer_measurements appends ancillas')
     ctx.decided.append('C09.f simulating with a noise model: noise that follows a deferred terminal measurement is recognised per qubit and never reaches the sampled state')
